@@ -77,6 +77,35 @@ pub struct Step {
 	pub pump: bool,
 }
 
+/// what every node's fee estimator reports for on-chain sweeps, block by block after the closure
+#[derive(Clone, Debug, Serialize, Deserialize, Default)]
+pub enum Traj {
+	/// left alone (only `Pre::Fee` changes it)
+	#[default]
+	Flat,
+	Rising { start: u32, pct: u8 },
+	Falling { start: u32, pct: u8 },
+	Spike { base: u32, peak: u32, at: u8, len: u8 },
+}
+
+impl Traj {
+	fn rate(&self, k: u32) -> Option<u32> {
+		let pow = |start: u32, num: u64, k: u32| -> u32 {
+			let mut r = start as u64;
+			for _ in 0..k.min(200) {
+				r = (r * num / 100).clamp(253, 50_000);
+			}
+			r as u32
+		};
+		match self {
+			Traj::Flat => None,
+			Traj::Rising { start, pct } => Some(pow(*start, 100 + *pct as u64, k)),
+			Traj::Falling { start, pct } => Some(pow(*start, 100 - (*pct as u64).min(90), k)),
+			Traj::Spike { base, peak, at, len } => Some(if k >= *at as u32 && k < *at as u32 + *len as u32 { *peak } else { *base }),
+		}
+	}
+}
+
 #[derive(Clone, Debug, Serialize, Deserialize)]
 pub struct Case {
 	pub spec: WorldSpec,
@@ -90,6 +119,8 @@ pub struct Case {
 	pub max_delay: u8,
 	/// order used by the deterministic tail (after the generated steps)
 	pub tail_reverse: bool,
+	#[serde(default)]
+	pub traj: Traj,
 }
 
 // -------------------------------------------------------------------------------------------------
@@ -186,7 +217,7 @@ pub struct Run<'a> {
 	/// lowest commitment number signed per (chan, signer)
 	newest_signed: BTreeMap<(usize, usize), u64>,
 	/// (node, chan, payment hash) -> height at which the node's monitor of that channel was handed the preimage
-	known: BTreeMap<(usize, usize, [u8; 32]), u32>,
+	preimage_known: BTreeMap<(usize, usize, [u8; 32]), u32>,
 	pub closed: Vec<Closed>,
 	/// first broadcaster of every transaction
 	by: BTreeMap<Txid, usize>,
@@ -208,6 +239,12 @@ pub struct Run<'a> {
 	/// starts with one of these are recorded as labels instead of ending the case
 	tolerate: Vec<String>,
 	pub tolerated: BTreeSet<String>,
+	/// keys listed as known findings: the first such failure is remembered and reported at the END of the case
+	/// (the runner then counts the case as excluded_known), so that every other oracle is still evaluated on
+	/// the rest of the case — the search continues behind a known finding
+	known: Vec<String>,
+	pub known_hit: Option<Failure>,
+	blocks_since_close: u32,
 }
 
 pub fn cold_script(node: usize) -> ScriptBuf {
@@ -241,7 +278,7 @@ impl<'a> Run<'a> {
 			cur_hist: 0,
 			commits: BTreeMap::new(),
 			newest_signed: BTreeMap::new(),
-			known: BTreeMap::new(),
+			preimage_known: BTreeMap::new(),
 			closed: vec![],
 			by: BTreeMap::new(),
 			harness_txs: BTreeSet::new(),
@@ -257,6 +294,9 @@ impl<'a> Run<'a> {
 			unfinished: false,
 			tolerate: std::env::var("C07_TOLERATE").ok().map(|s| s.split(',').filter(|x| !x.is_empty()).map(|x| x.to_string()).collect()).unwrap_or_default(),
 			tolerated: BTreeSet::new(),
+			known: vcore::load_known_findings("C07").into_iter().filter(|k| k.status == "known").map(|k| k.key).collect(),
+			known_hit: None,
+			blocks_since_close: 0,
 		};
 		// broadcasts during channel establishment are not part of the case
 		r.cur_log = r.sim.log.len();
@@ -318,7 +358,7 @@ impl<'a> Run<'a> {
 					let Some(ci) = self.sim.chans.iter().position(|c| c.id == chan) else { continue };
 					for p in self.sim.pays.iter() {
 						if debug.contains(&format!("{:?}", p.preimage)) {
-							self.known.entry((node, ci, p.hash.0)).or_insert(height);
+							self.preimage_known.entry((node, ci, p.hash.0)).or_insert(height);
 						}
 					}
 				},
@@ -343,13 +383,8 @@ impl<'a> Run<'a> {
 					let txid = tx.compute_txid();
 					self.by.entry(txid).or_insert(node);
 					self.first_seen.entry(txid).or_insert(height);
-					if let Err(f) = self.judge_broadcast(node, &tx, height, &verdict) {
-						if self.tolerate.iter().any(|t| f.key.starts_with(t.as_str())) {
-							self.tolerated.insert(f.key.clone());
-						} else {
-							return Err(f);
-						}
-					}
+					let j = self.judge_broadcast(node, &tx, height, &verdict);
+					self.soft(j)?;
 					if matches!(verdict, Ok(_) | Err(Reject::MempoolConflict(_))) {
 						self.fee_monotone(node, &tx)?;
 						self.bump_tx_meets_target(node, &tx, &mut pending_bumps)?;
@@ -717,7 +752,7 @@ impl<'a> Run<'a> {
 		for h in cl.htlcs.iter() {
 			let op = OutPoint { txid: cl.txid, vout: h.vout };
 			let is_offerer = h.offerer == node;
-			let knows = self.known.contains_key(&(node, cl.chan, h.hash));
+			let knows = self.preimage_known.contains_key(&(node, cl.chan, h.hash));
 			let unresolved_shape = if is_offerer {
 				Shape::MaybeTimeout { amt: h.sat(), height: h.cltv, hash: h.hash, outbound_payment: h.pay.map(|p| self.sim.pays[p].from == node) }
 			} else if knows {
@@ -768,7 +803,7 @@ impl<'a> Run<'a> {
 				}
 				self.stats.timeliness_checks += 1;
 				// inbound HTLC whose preimage the monitor was given: a valid claim must be out
-				if self.known.contains_key(&(h.receiver, cl.chan, h.hash)) && !self.node_has_mempool_spend(h.receiver, &op) {
+				if self.preimage_known.contains_key(&(h.receiver, cl.chan, h.hash)) && !self.node_has_mempool_spend(h.receiver, &op) {
 					let refused = self.last_refused_spend(h.receiver, &op);
 					let why = match &refused {
 						Some((_, Reject::AlreadySpent(o, _))) if *o != op => "claim-aggregated-with-spent-output".to_string(),
@@ -942,6 +977,12 @@ impl<'a> Run<'a> {
 	/// development aid, see `tolerate`
 	fn soft(&mut self, r: CaseResult) -> CaseResult {
 		match r {
+			Err(f) if self.known.iter().any(|k| *k == f.key) => {
+				if self.known_hit.is_none() {
+					self.known_hit = Some(f);
+				}
+				Ok(())
+			},
 			Err(f) if self.tolerate.iter().any(|t| f.key.starts_with(t.as_str())) => {
 				self.tolerated.insert(f.key.clone());
 				Ok(())
@@ -959,6 +1000,12 @@ impl<'a> Run<'a> {
 	}
 
 	pub fn block(&mut self, incl: &Incl, pump: bool) -> CaseResult {
+		if let Some(rate) = self.case.traj.rate(self.blocks_since_close) {
+			for i in 0..self.n() {
+				self.set_sweep_feerate(i, rate);
+			}
+		}
+		self.blocks_since_close += 1;
 		self.prune_orphans();
 		let txs = self.select(incl);
 		self.sim.mine_block(txs);
@@ -1026,6 +1073,12 @@ impl<'a> Run<'a> {
 	}
 
 	pub fn close(&mut self) -> CaseResult {
+		self.blocks_since_close = 0;
+		if let Some(rate) = self.case.traj.rate(0) {
+			for i in 0..self.n() {
+				self.set_sweep_feerate(i, rate);
+			}
+		}
 		let ci = pick(self.case.chan, self.sim.chans.len());
 		let info = self.sim.chans[ci].clone();
 		let (who_funder, cut) = match &self.case.close {
@@ -1164,7 +1217,7 @@ impl<'a> Run<'a> {
 					return Err(fail("htlc-output-unclaimed", format!("chan {}: HTLC output {} ({} sat, expiry {}) was never claimed by anyone", cl.chan, op, h.sat(), h.cltv)));
 				};
 				let Some(by) = by else { continue };
-				let known_at = self.known.get(&(h.receiver, cl.chan, h.hash)).cloned();
+				let known_at = self.preimage_known.get(&(h.receiver, cl.chan, h.hash)).cloned();
 				if by == h.offerer {
 					self.stats.htlc_won_by_timeout += 1;
 					// the receiver lost it: legitimate unless it knew the preimage early enough for its claim to
@@ -1331,9 +1384,9 @@ impl<'a> Run<'a> {
 			ctx.label_if(!cl.htlcs.is_empty() && cl.htlcs.len() < 3, "htlcs-at-close:1-2");
 			ctx.label_if(cl.htlcs.len() >= 3, "htlcs-at-close:3+");
 			ctx.label_if(cl.htlcs.iter().any(|h| h.offerer == cl.b) && cl.htlcs.iter().any(|h| h.offerer == cl.c), "htlcs-both-directions");
-			ctx.label_if(cl.htlcs.iter().any(|h| self.known.contains_key(&(h.receiver, cl.chan, h.hash)) && h.receiver == cl.b), "preimage-known-to-broadcaster");
-			ctx.label_if(cl.htlcs.iter().any(|h| self.known.contains_key(&(h.receiver, cl.chan, h.hash)) && h.receiver == cl.c), "preimage-known-to-counterparty");
-			ctx.label_if(cl.htlcs.iter().any(|h| !self.known.contains_key(&(h.receiver, cl.chan, h.hash))), "preimage-known-to-nobody");
+			ctx.label_if(cl.htlcs.iter().any(|h| self.preimage_known.contains_key(&(h.receiver, cl.chan, h.hash)) && h.receiver == cl.b), "preimage-known-to-broadcaster");
+			ctx.label_if(cl.htlcs.iter().any(|h| self.preimage_known.contains_key(&(h.receiver, cl.chan, h.hash)) && h.receiver == cl.c), "preimage-known-to-counterparty");
+			ctx.label_if(cl.htlcs.iter().any(|h| !self.preimage_known.contains_key(&(h.receiver, cl.chan, h.hash))), "preimage-known-to-nobody");
 			ctx.label_if(cl.to_b_sat == 0 || cl.to_c_sat == 0, "a-balance-output-missing");
 		}
 		ctx.label_if(st.late_claims > 0, "late-preimage-after-close");
@@ -1449,7 +1502,24 @@ fn run_inner(r: &mut Run, ctx: &mut Ctx, tail_blocks: u32) -> CaseResult {
 	let spec = r.case.spec.clone();
 	r.observe()?;
 	for op in r.case.ops.iter() {
-		let tag = apply(&mut r.sim, &spec, op);
+		// A panic inside channel operation while every channel is still open (e.g. the `list_channels`
+		// debug assertion "some channel balance has been overdrawn") is the verdict of the channel-state
+		// properties (C01), not of the on-chain claim machinery: labelled and the case is given up.
+		let open_before = r.closed.is_empty() && r.sim.chans.iter().enumerate().all(|(i, c)| r.sim.chan_details(c.a, i).is_some() && r.sim.chan_details(c.b, i).is_some());
+		let res = std::panic::catch_unwind(std::panic::AssertUnwindSafe(|| apply(&mut r.sim, &spec, op)));
+		let tag = match res {
+			Ok(t) => t,
+			Err(p) => {
+				let lp = vcore::take_last_panic();
+				let loc = lp.as_ref().map(|(_, l)| l.clone()).unwrap_or_default();
+				if open_before && (loc.contains("/ln/channel_state.rs") || loc.contains("/ln/channel.rs") || loc.contains("/ln/channelmanager.rs")) {
+					ctx.label(&format!("foreign-failure:C01:panic@{}", loc.rsplit("/lightning/src/").next().unwrap_or(&loc)));
+					return Ok(());
+				}
+				vcore::set_last_panic(lp);
+				std::panic::resume_unwind(p);
+			},
+		};
 		r.tags.push(tag);
 		r.observe()?;
 		if tag == "mine" {
@@ -1478,6 +1548,17 @@ fn run_inner(r: &mut Run, ctx: &mut Ctx, tail_blocks: u32) -> CaseResult {
 	}
 	r.labels(ctx);
 	ctx.label_if(r.stats.closed_automatically, "closure:before-the-close-op");
+	ctx.label(match r.case.traj {
+		Traj::Flat => "fees:flat",
+		Traj::Rising { .. } => "fees:rising",
+		Traj::Falling { .. } => "fees:falling",
+		Traj::Spike { .. } => "fees:spike",
+	});
+	if let Some(f) = r.known_hit.take() {
+		// everything else held; hand the known finding to the runner (counted as excluded_known)
+		ctx.label(&format!("known-finding:{}", f.key));
+		return Err(f);
+	}
 	ctx.nontrivial_if(r.nontrivial());
 	ctx.sub_evaluations(r.stats.broadcasts + r.stats.balance_checks + r.stats.timeliness_checks + r.stats.sweeps);
 	ctx.summary(serde_json::json!({
